@@ -93,7 +93,12 @@ def run(ctx):
             S = SimpleShape(J)
             tok = "S " + core.ejordan(J)          # the curve as stored (the constructor degree-reduces what it can)
             deg = 3 if cubic else 2
-            ctx.check(all(sg.degree == deg for sg in J.segments), "constructor changed the degree of a genuine curved piece", {"ctrl": segs})
+            # (a piece whose three neighbouring vertices are collinear is a straight line in disguise: the constructor may reduce it - the model's
+            #  `cleanSeg` says which pieces are genuine)
+            exp_deg = [len(core.dseg(drv.ask("cleanseg " + core.eseg(sg_)))) - 1 for sg_ in segs]
+            ctx.check([sg.degree for sg in J.segments] == exp_deg, "constructor changed the degree of a genuine curved piece (or kept a reducible one)", {"ctrl": segs}, exp_deg, [sg.degree for sg in J.segments])
+            if any(d != deg for d in exp_deg):
+                ctx.count("curved-family:has-reducible-piece")
             for (a, b) in [(0, 0), (1, 0), (0, 1), (2, 0), (1, 1), (0, 2), (3, 1)]:
                 got = IntegrateShape.polynomial(S, a, b)
                 quad = F(drv.ask(f"quadmoment {tok} {a} {b}"))
